@@ -34,7 +34,7 @@ def _sub(scope, maxt, dev="{}", inv=INV, w=2):
 
 def run(ctx):
     q = ctx.quick()
-    pool = concurrent.futures.ThreadPoolExecutor(max_workers=4)
+    pool = concurrent.futures.ThreadPoolExecutor(max_workers=8)
     jobs = {}
     jobs["gen_agree"] = pool.submit(lib.run_tlc, ctx, "HandshakeGen", "HandshakeGen.cfg", _sub("agree", 0), tag="gen_agree",
                                     workers=4, timeout=900, env=JVM)
@@ -45,8 +45,11 @@ def run(ctx):
                                           tag="mc_agree_w3", workers=4, timeout=900, env=JVM)
     for d in DEVS:
         jobs["neg_" + d] = pool.submit(lib.run_tlc, ctx, "Handshake", "Handshake_mc.cfg", _sub("neg", 0, '{"%s"}' % d),
-                                       tag="neg_" + d, workers=2, timeout=900, env=JVM, expect_violation=True)
+                                       tag="neg_" + d, workers=1, timeout=900, env=JVM, expect_violation=True)
+    # compile the harness while TLC runs
+    warm = pool.submit(lambda: lib.run_go(ctx, "server", "TestVerifC06Warm", tag="warm", prefixes=("c06", "c07", "shared")))
     res = {k: f.result() for k, f in jobs.items()}
+    warm.result()
     pool.shutdown(wait=False)
     for name, r in res.items():
         if name.startswith("neg_"):
